@@ -221,7 +221,7 @@ void run_crash(J const &plan, RunResult &res, SimRun &sim) {
   std::vector<FsMutation> const &jr = snapshot_fs.journal();
   size_t first = refs.front().jindex;
   std::set<uint64_t> seen_images;
-  size_t boundaries = 0, images = 0;
+  size_t boundaries = 0, images = 0; long sampled_out = 0;
   Rng pr((uint64_t)plan.at("seed").as_int(), 1111);
   auto relevant_hash = [&](FsImage const &img) {
     uint64_t h = 1469598103934665603ULL;
@@ -248,6 +248,9 @@ void run_crash(J const &plan, RunResult &res, SimRun &sim) {
       if (seen_images.count(h)) continue;
       seen_images.insert(h);
       images++;
+      // each image costs a fresh instance (~12 ms): past 1500 distinct images the rest of this plan's boundaries are sampled 1 in 8
+      // (such plans chop their writes into tiny chunks; without the cap one of them takes a minute)
+      if (images > 1500 && pr.below(8) != 0) { sampled_out++; continue; }
       // only references completed at or before this instant count
       std::vector<Completed> avail;
       for (auto const &c : refs) if (c.jindex <= i) avail.push_back(c);
@@ -262,6 +265,7 @@ void run_crash(J const &plan, RunResult &res, SimRun &sim) {
   }
   res.counters["probe.crash_boundaries"] += (long long)boundaries;
   res.counters["probe.crash_images_distinct"] += (long long)images;
+  res.counters["probe.crash_images_not_loaded_beyond_cap"] += sampled_out;
   res.counters["probe.completed_states"] += (long long)refs.size();
   res.nontrivial = images > 1;
   res.class_hash = fnv_str(kinds, fnv_str(plan.at("scenario").at("template").as_str(), fnv_u64(ec.binary_state, fnv_u64(images, 11))));
